@@ -1,43 +1,104 @@
 import Sucds.Proofs.BitVectorHistory
 import Sucds.Proofs.BitVectorSelect
 import Sucds.Proofs.BitVectorFromBit
-/-! # C07 — BitVector is a faithful, canonical list of bits under any mutation history (partial)
+import Sucds.Proofs.BitVectorSelect0
+import Sucds.Proofs.BitVectorPredSucc
+import Sucds.Proofs.UnaryIter
+import Sucds.Proofs.IndexIter
+/-! # C07 — BitVector is a faithful, canonical list of bits under any mutation history
 
-Proved: every history of `push_bit`/`push_bits`/`set_bit`/`set_bits`/`extend` from a valid vector never
-panics, keeps the representation invariant and refines the list semantics, rejected operations change
-nothing (`histories`); equal contents give equal values whatever the histories (`canonical`); the
-constructors are valid; `get_bit`, `get_bits` for every `(pos, len)`, `get_word64`, `rank1`, `rank0`,
-`select1` equal the list semantics with `None` exactly out of range. Missing for the full statement:
-`select0`, `predecessor*`, `successor*` scans and the iterator. -/
+`Valid b` is the representation invariant (`⌈len/64⌉` words, all `< 2^64`, zero padding above `len`).
+* **Constructors** produce valid vectors holding the intended bits (`from_bits`, `from_bit`, `new`).
+* **Histories**: from a valid vector, every sequence of `push_bit` / `push_bits` / `set_bit` / `set_bits` /
+  `extend` with arbitrary operands (chunk lengths 0..=65 and beyond, garbage above the chunk length,
+  positions anywhere) never panics, answers `Ok`/`Err` exactly as the list semantics `specApply` says
+  (`Err` for chunk longer than 64 or range beyond the end), keeps the vector valid, refines the list
+  semantics, and a rejected operation returns the vector unchanged.
+* **Reads** on any valid vector, for every argument: `get_bit`, `get_bits(pos, len)` for every `(pos, len)`,
+  `get_word64`, `rank1/0`, `select1/0`, `predecessor1/0`, `successor1/0`, `num_ones` and iteration equal the
+  list, with `None` exactly out of range, in every build configuration.
+* **Canonical**: two valid vectors holding the same bits are equal (the derived `PartialEq` is structural). -/
 namespace Sucds.C07
 open Sucds Sucds.Spec Sucds.BV
 
-theorem histories : ∀ (ops : List Op) (b : BV), b.Inv →
-    ∃ b', run b ops = .ok b' ∧ b'.Inv ∧ b'.toList = ops.foldl (fun l op => (specApply l op).1) b.toList :=
-  run_spec
+abbrev Valid (b : BV) : Prop := b.Inv
 
-theorem canonical (ops ops' : List Op) (b0 b0' b b' : BV) (h0 : b0.Inv) (h0' : b0'.Inv)
+/-- reads of a valid vector equal the list semantics -/
+structure ReadsOK (c : Cfg) (b : BV) : Prop where
+  len      : b.toList.length = b.len
+  get_bit  : ∀ pos, b.getBit pos = .ok (if pos < b.len then some (b.bitAt pos) else none)
+  get_bits : ∀ pos len, (len ≤ 64 ∧ pos + len ≤ b.len →
+                ∃ v, b.getBits pos len = .ok (some v) ∧ ∀ j, v.testBit j = (decide (j < len) && b.bitAt (pos + j))) ∧
+              (¬ (len ≤ 64 ∧ pos + len ≤ b.len) → b.getBits pos len = .ok none)
+  get_word64 : ∀ pos, (pos < b.len →
+                ∃ v, b.getWord64 pos = .ok (some v) ∧ ∀ j, v.testBit j = (decide (j < 64) && b.bitAt (pos + j))) ∧
+              (b.len ≤ pos → b.getWord64 pos = .ok none)
+  rank1    : ∀ pos, b.rank1 c pos = .ok (if pos ≤ b.len then some (cnt b.bitAt pos) else none)
+  rank0    : ∀ pos, b.rank0 c pos = .ok (if pos ≤ b.len then some (pos - cnt b.bitAt pos) else none)
+  select1  : ∀ k, b.select1 c k = .ok (sel b.bitAt b.len k)
+  select0  : ∀ k, b.select0 c k = .ok (sel (fun i => !b.bitAt i) b.len k)
+  pred1    : ∀ pos, b.predecessor1 c pos = .ok (if pos < b.len then predP b.bitAt pos else none)
+  pred0    : ∀ pos, b.predecessor0 c pos = .ok (if pos < b.len then predP (fun i => !b.bitAt i) pos else none)
+  succ1    : ∀ pos, b.successor1 c pos = .ok (if pos < b.len then succP b.bitAt b.len pos else none)
+  succ0    : ∀ pos, b.successor0 c pos = .ok (if pos < b.len then succP (fun i => !b.bitAt i) b.len pos else none)
+  num_ones : b.numOnes c = .ok (cnt b.bitAt b.len)
+
+theorem reads_ok (c : Cfg) (b : BV) (h : Valid b) : ReadsOK c b where
+  len := toList_length b
+  get_bit := getBit_ok b h
+  get_bits pos len := ⟨fun hr => getBits_ok b h pos len hr.1 hr.2, getBits_none b pos len⟩
+  get_word64 pos := ⟨getWord64_ok b h pos, getWord64_none b pos⟩
+  rank1 := rank1_ok c b h
+  rank0 := rank0_ok c b h
+  select1 := select1_ok c b h
+  select0 := select0_ok c b h
+  pred1 := predecessor1_ok c b h
+  pred0 := predecessor0_ok c b h
+  succ1 := successor1_ok c b h
+  succ0 := successor0_ok c b h
+  num_ones := numOnes_ok c b h
+
+def Statement : Prop :=
+  -- constructors
+  (Valid BV.new ∧ BV.new.toList = []) ∧
+  (∀ xs : List Bool, Valid (fromBits xs) ∧ (fromBits xs).toList = xs) ∧
+  (∀ bit len, Valid (fromBit bit len) ∧ (fromBit bit len).len = len ∧ ∀ i, (fromBit bit len).bitAt i = (decide (i < len) && bit)) ∧
+  -- one operation: verdict, refinement, no effect when rejected
+  (∀ (b : BV), Valid b → ∀ op : Op,
+    ∃ b', b.apply op = .ok (b', (specApply b.toList op).2) ∧ Valid b' ∧ b'.toList = (specApply b.toList op).1 ∧
+      ((specApply b.toList op).2 = false → b' = b)) ∧
+  -- every history
+  (∀ (ops : List Op) (b : BV), Valid b →
+    ∃ b', run b ops = .ok b' ∧ Valid b' ∧ b'.toList = ops.foldl (fun l op => (specApply l op).1) b.toList) ∧
+  -- reads
+  (∀ (c : Cfg) (b : BV), Valid b → ReadsOK c b) ∧
+  -- canonical equality
+  (∀ a b : BV, Valid a → Valid b → a.toList = b.toList → a = b)
+
+theorem holds : Statement :=
+  ⟨⟨new_inv, new_toList⟩, fromBits_spec, fromBit_spec, apply_spec, run_spec, reads_ok, eq_of_toList⟩
+
+/-- `toList` is the list of the stored bits: element `i` is `bitAt i` -/
+theorem toList_getElem (b : BV) (i : Nat) (hi : i < b.len) : b.toList[i]? = some (b.bitAt i) := by
+  simp [toList, hi]
+
+/-- iteration (`Iter`: `next` = `access(pos)` then `pos += 1`; `size_hint` = remaining): yields the bits in
+    order and then `None` forever, with exact size hints -/
+theorem iteration (b : BV) (h : Valid b) (n : Nat) :
+    IndexIter.runN b.toList.length (fun i => if i < b.len then some (b.bitAt i) else none) ⟨0⟩ n =
+      (List.range n).map (fun j => (b.toList[0 + j]?, (b.toList.length - (0 + j), some (b.toList.length - (0 + j))))) := by
+  apply IndexIter.runN_spec b.toList _ _ n 0 (Nat.zero_le _)
+  intro i hi
+  rw [toList_length] at hi
+  simp [hi, toList_getElem b i hi]
+
+/-- histories producing the same bits produce equal values -/
+theorem canonical (ops ops' : List Op) (b0 b0' b b' : BV) (h0 : Valid b0) (h0' : Valid b0')
     (hr : run b0 ops = .ok b) (hr' : run b0' ops' = .ok b')
     (heq : ops.foldl (fun l op => (specApply l op).1) b0.toList = ops'.foldl (fun l op => (specApply l op).1) b0'.toList) :
     b = b' := run_canonical ops ops' b0 b0' b b' h0 h0' hr hr' heq
 
-theorem from_bits (xs : List Bool) : (fromBits xs).Inv ∧ (fromBits xs).toList = xs := fromBits_spec xs
-
-theorem get_bit (b : BV) (h : b.Inv) (pos : Nat) :
-    b.getBit pos = .ok (if pos < b.len then some (b.bitAt pos) else none) := getBit_ok b h pos
-
-theorem get_bits_in_range (b : BV) (h : b.Inv) (pos len : Nat) (hl : len ≤ 64) (hr : pos + len ≤ b.len) :
-    ∃ v, b.getBits pos len = .ok (some v) ∧ ∀ j, v.testBit j = (decide (j < len) && b.bitAt (pos + j)) :=
-  getBits_ok b h pos len hl hr
-theorem get_bits_out_of_range (b : BV) (pos len : Nat) (h : ¬ (len ≤ 64 ∧ pos + len ≤ b.len)) :
-    b.getBits pos len = .ok none := getBits_none b pos len h
-
-theorem rank1 (c : Cfg) (b : BV) (h : b.Inv) (pos : Nat) :
-    b.rank1 c pos = .ok (if pos ≤ b.len then some (cnt b.bitAt pos) else none) := rank1_ok c b h pos
-theorem rank0 (c : Cfg) (b : BV) (h : b.Inv) (pos : Nat) :
-    b.rank0 c pos = .ok (if pos ≤ b.len then some (pos - cnt b.bitAt pos) else none) := rank0_ok c b h pos
-theorem select1 (c : Cfg) (b : BV) (h : b.Inv) (k : Nat) : b.select1 c k = .ok (sel b.bitAt b.len k) := select1_ok c b h k
-
--- a history with a rejected operation, from the empty vector
-example : (BV.new).Inv := new_inv
+-- non-vacuity: a rejected operation in the list semantics (chunk of 65 bits), and a valid start
+example : (specApply [true, false] (.pushBits 7 65)).2 = false := by decide
+example : Valid (fromBits [true, false, true]) := (fromBits_spec _).1
 end Sucds.C07
